@@ -26,8 +26,14 @@ Definition dec_xp (s : str) : option (list str) :=
   else match s with "="%char :: r => Some (match r with [] => [] | _ => split_c comma r end) | _ => None end.
 Definition dec_echo (s : str) : option bool :=
   if str_eqb s (s2l "1") then Some true else if str_eqb s (s2l "0") then Some false else None.
+(** TAB split with [rev_append] ([Wire.fields] reverses with the quadratic stdlib [rev]) *)
+Fixpoint split_fast (cur : str) (acc : list str) (s : str) : list str :=
+  match s with
+  | [] => rev_append acc [rev_append cur []]
+  | c :: r => if ceqb c tab then split_fast [] (rev_append cur [] :: acc) r else split_fast (c :: cur) acc r
+  end.
 Definition run_case (line : str) : str :=
-  match fields line with
+  match split_fast [] [] line with
   | k :: rest =>
       if str_eqb k (s2l "W") then
         match rest with
